@@ -482,6 +482,123 @@ Proof.
   - rewrite (geom_cis_sym (flag y')). apply neg_class.
 Qed.
 
+(** ------------------------------------------------------------------ renumbering *)
+Definition res_map {A B} (h : A -> B) (r : res A) : res B := match r with Ok x => Ok (h x) | Err e => Err e end.
+
+Section Rename.
+  Variable f : Z -> Z.
+  Hypothesis Inj : injective f.
+
+  Lemma f_eqb x y : Z.eqb (f x) (f y) = Z.eqb x y.
+  Proof. destruct (Z.eqb_spec x y) as [->|N]; [apply Z.eqb_refl|]. apply Z.eqb_neq. intros E. apply N, Inj, E. Qed.
+
+  Definition rename_node (n : nrec) : nrec := {| nk := f (nk n); na := na n; nadj := rename_adj f (nadj n) |}.
+  Lemma gfind_rename g k : gfind (f k) (rename_graph f g) = option_map rename_node (gfind k g).
+  Proof.
+    induction g as [|n r IH]; cbn; [reflexivity|]. rewrite f_eqb. destruct (Z.eqb (nk n) k); [reflexivity|exact IH].
+  Qed.
+  Lemma neighbors_rename g a : neighbors (rename_graph f g) (f a) = map f (neighbors g a).
+  Proof.
+    unfold neighbors. rewrite gfind_rename. destruct (gfind a g) as [n|]; cbn; [|reflexivity].
+    unfold rename_adj. rewrite !map_map. reflexivity.
+  Qed.
+  Lemma ez_get_rename ez k : ez_get (f k) (rename_ez f ez) = ez_get k ez.
+  Proof. induction ez as [|[k' v] r IH]; cbn; [reflexivity|]. rewrite f_eqb. destruct (Z.eqb k k'); [reflexivity|exact IH]. Qed.
+  Lemma ez_in_rename ez k : ez_in (rename_ez f ez) (f k) = ez_in ez k.
+  Proof. unfold ez_in. now rewrite ez_get_rename. Qed.
+
+  Lemma on_anchor_rename g ez a o :
+    on_anchor (rename_graph f g) (rename_ez f ez) (f a) (f o) = map (rename_sub f) (on_anchor g ez a o).
+  Proof.
+    unfold on_anchor. rewrite neighbors_rename. induction (neighbors g a) as [|n r IH]; cbn; [reflexivity|].
+    rewrite !f_eqb, ez_get_rename, IH, map_app. f_equal.
+    destruct (Z.eqb n a || Z.eqb n o); [reflexivity|]. destruct (ez_get n ez); reflexivity.
+  Qed.
+
+  Lemma conflict_rename a l :
+    (forall x, In x l -> (s_lig x <? a) = (f (s_lig x) <? f a) /\ (a <? s_lig x) = (f a <? f (s_lig x))) ->
+    conflict_check (f a) (map (rename_sub f) l) = conflict_check a l.
+  Proof.
+    intros M. destruct l as [|x [|y [|z r]]]; try reflexivity. cbn.
+    destruct (M x (or_introl eq_refl)) as [<- <-]. destruct (M y (or_intror (or_introl eq_refl))) as [<- <-].
+    reflexivity.
+  Qed.
+
+  Lemma list_prod_map {A B C D} (h : A -> C) (k : B -> D) (l : list A) (l' : list B) :
+    list_prod (map h l) (map k l') = map (fun p => (h (fst p), k (snd p))) (list_prod l l').
+  Proof.
+    induction l as [|x r IH]; cbn; [reflexivity|]. rewrite map_app, IH. f_equal. rewrite !map_map. reflexivity.
+  Qed.
+
+  Lemma on_anchor_mono g ez a o x : mono_adj g f -> In x (on_anchor g ez a o) ->
+    (s_lig x <? a) = (f (s_lig x) <? f a) /\ (a <? s_lig x) = (f a <? f (s_lig x)).
+  Proof.
+    intros M I. destruct (on_anchor_in _ _ _ _ _ I) as [_ [N _]]. unfold neighbors in N.
+    destruct (gfind a g) as [n|] eqn:E; [|contradiction]. destruct (gfind_some _ _ _ E) as [In1 <-].
+    apply in_map_iff in N. destruct N as [[w d] [<- I2]]. exact (M n w d In1 I2).
+  Qed.
+
+  Lemma edge_pairs_rename g ez a1 a2 d : mono_adj g f ->
+    edge_pairs (rename_graph f g) (rename_ez f ez) (f a1, f a2, d) =
+    res_map (map (rename_pair f)) (edge_pairs g ez (a1, a2, d)).
+  Proof.
+    intros M. unfold edge_pairs. destruct (is_two (aget (S "order") d)); cbn; [|reflexivity].
+    rewrite !ez_in_rename. destruct (xorb _ _); [reflexivity|].
+    rewrite !on_anchor_rename. rewrite conflict_rename by (intros x I; eapply on_anchor_mono; eauto).
+    destruct (conflict_check a1 _); cbn; [|reflexivity].
+    rewrite conflict_rename by (intros x I; eapply on_anchor_mono; eauto).
+    destruct (conflict_check a2 _); cbn; [|reflexivity].
+    f_equal. apply list_prod_map.
+  Qed.
+
+  Definition rename_edge (e : Z * Z * attrs) : Z * Z * attrs := (f (fst (fst e)), f (snd (fst e)), snd e).
+  Lemma edges_from_rename g : forall seen,
+    edges_from (rename_graph f g) (map f seen) = map rename_edge (edges_from g seen).
+  Proof.
+    induction g as [|n r IH]; intros seen; cbn; [reflexivity|]. rewrite map_app. f_equal.
+    - unfold rename_adj. induction (nadj n) as [|[w d] l IHl]; cbn; [reflexivity|].
+      rewrite map_app, <- IHl. f_equal.
+      assert (E : existsb (Z.eqb (f w)) (map f seen) = existsb (Z.eqb w) seen).
+      { clear - Inj. induction seen as [|s r IH]; cbn; [reflexivity|]. now rewrite f_eqb, IH. }
+      rewrite E. destruct (existsb _ seen); reflexivity.
+    - change (f (nk n) :: map f seen) with (map f (nk n :: seen)). apply IH.
+  Qed.
+  Lemma edges_data_rename g : edges_data (rename_graph f g) = map rename_edge (edges_data g).
+  Proof. exact (edges_from_rename g []). Qed.
+
+  Local Arguments edge_pairs : simpl never.
+  Lemma all_pairs_of_rename g ez es : mono_adj g f ->
+    all_pairs_of (rename_graph f g) (rename_ez f ez) (map rename_edge es) =
+    res_map (map (rename_pair f)) (all_pairs_of g ez es).
+  Proof.
+    intros M. induction es as [|[[a1 a2] d] r IH]; cbn; [reflexivity|].
+    unfold rename_edge at 1. cbn [fst snd]. rewrite edge_pairs_rename by assumption.
+    destruct (edge_pairs g ez (a1, a2, d)) as [p|]; cbn; [|reflexivity].
+    rewrite IH. destruct (all_pairs_of g ez r); cbn; [|reflexivity]. now rewrite map_app.
+  Qed.
+
+  (** renumbering that keeps node order and adjacency order (hence the end from which every edge is
+      enumerated) and is monotone on every (neighbour, node) pair: the same pairs, renamed *)
+  Theorem all_pairs_rename g ez : mono_adj g f ->
+    all_pairs (rename_graph f g) (rename_ez f ez) = res_map (map (rename_pair f)) (all_pairs g ez).
+  Proof. intros M. unfold all_pairs. rewrite edges_data_rename. now apply all_pairs_of_rename. Qed.
+
+  (** ... and the same classes *)
+  Theorem ez_renumber_invariant_partial g ez ps : mono_adj g f -> all_pairs g ez = Ok ps ->
+    all_pairs (rename_graph f g) (rename_ez f ez) = Ok (map (rename_pair f) ps) /\
+    forall p, In p ps -> pair_result (rename_pair f p) = pair_result p.
+  Proof.
+    intros M H. split; [rewrite all_pairs_rename, H by assumption; reflexivity|].
+    intros [x y] I. unfold all_pairs in H.
+    destruct (all_pairs_of_in _ _ _ _ _ H I) as [[[a1 a2] d] [ps' [_ [He Ip]]]].
+    destruct (edge_pairs_in _ _ _ _ _ _ _ _ He Ip) as [_ [Ix _]].
+    destruct (on_anchor_mono _ _ _ _ _ M Ix) as [L1 L2].
+    destruct (on_anchor_in _ _ _ _ _ Ix) as [Ea _]. rewrite <- Ea in L1, L2.
+    unfold pair_result, interpret. cbn [fst snd rename_pair rename_sub s_lig s_anc s_tok].
+    now rewrite <- L1, <- L2.
+  Qed.
+End Rename.
+
 (** ------------------------------------------------------------------ the refutation *)
 From CGV Require Import Stereo.EzWitness.
 (** the same molecule with the same marks, the two fragments listed in the other order:
